@@ -454,6 +454,144 @@ def taxlabelsText (ps uu : Bool) : List Str → Str
   | l :: ns => indent8 ++ (escape ps (!uu) protectDefault l ++ '\n' :: taxlabelsText ps uu ns)
 
 
+/-! ### NEXUS: the TREES block (writer text and reader) -/
+
+/-- one written tree: rooting code, weight text, tree -/
+abbrev WT := Nat × Option Str × NT
+
+/-- `    TREE name = <statement>\n` (`NexusWriter._write_trees_block`; the name goes through `escape_nexus_token` with
+    the default protect class, the statement is `NewickWriter._write_tree`) -/
+def treeLine (o : WOpts) (x : Str × WT) : Str :=
+  [' ', ' ', ' ', ' ', 'T', 'R', 'E', 'E', ' '] ++ (escape o.ps (!o.uu) protectDefault x.1 ++
+    ([' ', '=', ' '] ++ (writeTree o x.2.1 x.2.2.1 x.2.2.2 ++ ['\n'])))
+
+def treeLines (o : WOpts) : List (Str × WT) → Str
+  | [] => []
+  | x :: xs => treeLine o x ++ treeLines o xs
+
+def beginTrees : Str := ['B', 'E', 'G', 'I', 'N', ' ', 'T', 'R', 'E', 'E', 'S', ';', '\n']
+def endBlock : Str := ['E', 'N', 'D', ';', '\n', '\n']
+
+/-- one entry line of the TRANSLATE statement: 13 blanks, the token as it is, a blank, the escaped label -/
+def translateEntry (o : WOpts) (p : Str × Str) : Str :=
+  indent8 ++ ([' ', ' ', ' ', ' ', ' '] ++ (p.1 ++ (' ' :: escape o.ps (!o.uu) protectDefault p.2)))
+
+def translateEntries (o : WOpts) : List (Str × Str) → Str
+  | [] => []
+  | [p] => translateEntry o p ++ ['\n']
+  | p :: q :: r => translateEntry o p ++ (',' :: '\n' :: translateEntries o (q :: r))
+
+/-- the TRANSLATE statement (`_set_and_write_translate_block`); nothing for an empty table -/
+def translateText (o : WOpts) (tm : List (Str × Str)) : Str :=
+  if tm.isEmpty then [] else
+  indent8 ++ (['T', 'r', 'a', 'n', 's', 'l', 'a', 't', 'e', '\n'] ++ (translateEntries o tm ++
+    (indent8 ++ [' ', ' ', ' ', ' ', ' ', ';', '\n'])))
+
+/-- the TREES block of a single-namespace document -/
+def treesBlockText (o : WOpts) (tm : List (Str × Str)) (trees : List (Str × WT)) : Str :=
+  beginTrees ++ (translateText o tm ++ (treeLines o trees ++ endBlock))
+
+def ucase (s : Str) : Str := s.map Char.toUpper
+
+/-- `skip_to_semicolon`: drop tokens up to and including the first `;` (the code compares the text only) -/
+def skipToSemi : List TokE → List TokE
+  | [] => []
+  | t :: r => if t.text == [';'] then r else skipToSemi r
+
+/-- `_parse_translate_statement`, positioned after `TRANSLATE`: (table, remaining tokens). Each label must resolve in the
+    namespace (`require_taxon` on the namespace the TAXA block fixed); the value stored is the namespace member -/
+def nexusTranslate (cf : Char → Char) (ns : List Str) : Nat → List TokE → List (Str × Str) → Option (List (Str × Str) × List TokE)
+  | 0, _, _ => none
+  | f + 1, t :: l :: rest, acc =>
+    if t.text == [';'] && !t.quoted then none else
+    match ns.find? (fun x => lowerWith cf x == lowerWith cf l.text) with
+    | none => none
+    | some lab =>
+      match rest with
+      | [] => some (acc ++ [(t.text, lab)], [])
+      | s :: rest' =>
+        if s.text == [';'] then some (acc ++ [(t.text, lab)], rest')
+        else if s.text == [','] then nexusTranslate cf ns f rest' (acc ++ [(t.text, lab)])
+        else none
+  | _ + 1, _, _ => none
+
+/-- the Newick statement inside a TREE command (`NewickReader._parse_tree_statement` entered on the first token of the
+    statement): (tree, remaining tokens after the statement and any further `;`, mapper) -/
+def nexusOneTree (o : ROpts) (atEof : Bool) (l : List TokE) (m : Mapper) : Option (PT × List TokE × Mapper) :=
+  match l with
+  | [] => none
+  | t :: r =>
+    if kind t == .semi then none   -- an empty statement: not produced by any writer; refused rather than guessed
+    else
+      match parseNode (stmtFuel (t :: r)) ((t :: r).map kind) with
+      | some (rt, rest, true) =>
+        match assign o rt ⟨m, []⟩ with
+        | none => none
+        | some (nt, s) =>
+          let (rooting, weight) := treeComments o t.cm none none
+          some (⟨rooting, weight, nt⟩, skipSemis atEof ((t :: r).drop ((t :: r).length - rest.length)), s.m)
+      | _ => none
+
+/-- the `TREE` commands of a block, positioned after the first `TREE` keyword (`NexusReader._parse_tree_statement` in
+    the `while True` loop of `_parse_trees_block`): named trees, the tokens left, the mapper -/
+def nexusTreeStmts (o : ROpts) (atEof : Bool) : Nat → List TokE → Mapper → List (Str × PT) →
+    Option (List (Str × PT) × List TokE × Mapper)
+  | 0, _, _, _ => none
+  | f + 1, l, m, acc =>
+    let l' := match l with
+      | st :: r => if st.text == ['*'] && !st.quoted then r else l   -- the default-tree marker; a quoted `'*'` is a name
+      | [] => l
+    match l' with
+    | nm :: eq :: rest =>
+      if eq.text == ['='] then
+        match nexusOneTree o atEof rest m with
+        | none => none
+        | some (pt, rest', m') =>
+          match rest' with
+          | [] => some (acc ++ [(nm.text, pt)], [], m')
+          | t :: r =>
+            if ucase t.text == ['T', 'R', 'E', 'E'] then nexusTreeStmts o atEof f r m' (acc ++ [(nm.text, pt)])
+            else some (acc ++ [(nm.text, pt)], t :: r, m')
+      else none
+    | _ => none
+
+/-- the command loop of `_parse_trees_block`, positioned after `BEGIN TREES;` -/
+def nexusBlockLoop (o : ROpts) (atEof : Bool) : Nat → List TokE → Mapper → List (Str × PT) → Option (List (Str × PT) × Mapper)
+  | 0, _, _, _ => none
+  | f + 1, l, m, acc =>
+    match l with
+    | [] => some (acc, m)
+    | t :: r =>
+      let u := ucase t.text
+      if u == ['E', 'N', 'D'] || u == ['E', 'N', 'D', 'B', 'L', 'O', 'C', 'K'] then some (acc, m)
+      else if u == ['T', 'R', 'A', 'N', 'S', 'L', 'A', 'T', 'E'] then
+        match nexusTranslate o.cf m.ns (r.length + 1) r [] with
+        | none => none
+        | some (tm, r') => nexusBlockLoop o atEof f r' { m with tokmap := tm } acc
+      else if u == ['T', 'R', 'E', 'E'] then
+        match nexusTreeStmts o atEof (r.length + 1) r m acc with
+        | none => none
+        | some (acc', r', m') =>
+          match r' with
+          | [] => some (acc', m')
+          | t' :: r'' =>
+            -- `token = current_token` (not upper-cased), then the loop condition, then the next token is fetched
+            if t'.text == ['E', 'N', 'D'] || t'.text == ['E', 'N', 'D', 'B', 'L', 'O', 'C', 'K'] then some (acc', m')
+            else nexusBlockLoop o atEof f r'' m' acc'
+      else if u == ['B', 'E', 'G', 'I', 'N'] || u == ['L', 'I', 'N', 'K'] || u == ['T', 'I', 'T', 'L', 'E'] then none
+      else nexusBlockLoop o atEof f r m acc
+
+/-- reading a TREES block (text from `BEGIN TREES;` on) over the namespace `ns` the TAXA block declared -/
+def nexusBlock (o : ROpts) (ns : List Str) (text : Str) : Option (List (Str × PT) × Mapper) :=
+  let ts := tokenizeAll o.pu text
+  if !ts.ok then none else
+  match ts.toks with
+  | b :: tr :: rest =>
+    if ucase b.text == ['B', 'E', 'G', 'I', 'N'] && ucase tr.text == ['T', 'R', 'E', 'E', 'S'] then
+      nexusBlockLoop o ts.atEof (rest.length + 1) (skipToSemi rest) ⟨[], ns, true⟩ []
+    else none
+  | _ => none
+
 /-! ### rendering for the protocol -/
 
 def hexS (s : Str) : String := if s.isEmpty then "=" else String.ofList (hex6 s)
@@ -476,5 +614,10 @@ def renderResult : Option (List PT × Mapper) → String
   | none => "ERR"
   | some (ts, m) => "ns " ++ ",".intercalate (m.ns.map hexS) ++ " trees " ++ toString ts.length ++
       String.join (ts.map (fun p => " | " ++ renderPT p))
+
+def renderNexus : Option (List (Str × PT) × Mapper) → String
+  | none => "ERR"
+  | some (ts, m) => "ns " ++ ",".intercalate (m.ns.map hexS) ++ " trees " ++ toString ts.length ++
+      String.join (ts.map (fun p => " | " ++ hexS p.1 ++ " " ++ renderPT p.2))
 
 end DendroModel.C02
